@@ -356,6 +356,23 @@ fn gen_cases(r: &mut Rng, n: usize, work: &Path, snippets: &(Vec<Vec<String>>, V
         v.push(Case { name: format!("gen{i}.{}", p.ext()), header: path, text: Some(text), pre, clang: p.clang_args(),
                       has_static_fns: !p.static_fns.is_empty(), inproc_ok: true });
     }
+    // several extern blocks per module that cannot be merged with each other (different ABIs,
+    // unsafety, variadics) under the post-processing passes: their relative order must be a
+    // function of the input
+    for (j, flags) in [vec!["--merge-extern-blocks"], vec!["--merge-extern-blocks", "--sort-semantically"],
+                       vec!["--merge-extern-blocks", "--enable-cxx-namespaces"], vec!["--sort-semantically", "--override-abi", "fn_c.*=C-unwind"]].into_iter().enumerate() {
+        let cpp = flags.contains(&"--enable-cxx-namespaces");
+        let body = "void fn_a(int) __attribute__((ms_abi));\nint fn_b(long);\ndouble fn_c(double) __attribute__((sysv_abi));\nvoid fn_d(char, ...);\nint fn_e(void) __attribute__((ms_abi));\nvoid fn_f(void) __attribute__((vectorcall));\nint fn_g(int) __attribute__((regcall));\nextern int var_a;\nextern const long var_b;\n";
+        let text = if cpp { format!("{body}namespace ns_m {{\nvoid fn_h(int) __attribute__((ms_abi));\nint fn_i(long);\nvoid fn_j(void) __attribute__((vectorcall));\nnamespace inner {{ int fn_k(int) __attribute__((ms_abi)); void fn_l(void); }}\n}}\n") } else { body.to_string() };
+        let name = format!("multi_abi{j}.{}", if cpp { "hpp" } else { "h" });
+        let path = work.join(&name);
+        std::fs::write(&path, &text).unwrap();
+        let mut pre: Vec<String> = flags.iter().map(|s| s.to_string()).collect();
+        pre.extend(["--formatter".to_owned(), "none".to_owned()]);
+        for f in &flags { *opt_hist.entry(f.to_string()).or_insert(0) += 1; }
+        *kinds.entry("multi-abi-extern-blocks".to_owned()).or_insert(0) += 1;
+        v.push(Case { name, header: path, text: Some(text), pre, clang: if cpp { vec!["-x".into(), "c++".into()] } else { vec![] }, has_static_fns: false, inproc_ok: true });
+    }
     v
 }
 
